@@ -16,7 +16,7 @@ seeds = st.integers(0, 2 ** 32 - 1)
 
 @st.composite
 def structures(draw, max_atoms=300, full_rank_only=False, allow_zero_periodic=True, slab_bias=False):
-    fam = draw(st.sampled_from(["isolated", "crystal", "crystallite", "grains", "stack", "gas", "molecule", "slab"]))
+    fam = draw(st.sampled_from(["isolated", "crystal", "twoincell", "crystallite", "grains", "stack", "gas", "molecule", "slab"]))
     d = {"family": fam, "pbc": draw(gc.pbcs)}
     if slab_bias:
         # C17 needs many two-dimensional networks: more slabs, mostly periodic in the slab plane
@@ -37,6 +37,12 @@ def structures(draw, max_atoms=300, full_rank_only=False, allow_zero_periodic=Tr
         d["proto"] = draw(st.integers(0, len(PROTO) - 1))
         d["cubic"] = draw(st.booleans())
         d["reps"] = [draw(st.sampled_from([2, 3, 1, 4])) for _ in range(3)]
+        if fam == "twoincell":
+            # a second crystal placed into the first one's cell (the two overlap / interpenetrate)
+            d["reps"] = [draw(st.sampled_from([1, 2, 3])) for _ in range(3)]
+            d["proto2"] = draw(st.integers(0, len(PROTO) - 1))
+            d["reps2"] = [draw(st.sampled_from([1, 2])) for _ in range(3)]
+            d["shift2"] = [draw(gc.ffloat(0.0, 3.0)) for _ in range(3)]
         if fam in ("grains", "stack"):
             d["proto2"] = draw(st.integers(0, len(PROTO) - 1))
             d["reps2"] = [draw(st.sampled_from([2, 1, 3])) for _ in range(3)]
@@ -52,10 +58,10 @@ def structures(draw, max_atoms=300, full_rank_only=False, allow_zero_periodic=Tr
             d["layers_cut"] = draw(st.integers(1, 2))
             d["vacuum"] = draw(gc.ffloat(4.0, 10.0))
             d["adsorbate"] = draw(st.sampled_from([None, None, 1, 8]))
-        d["vac_frac"] = draw(st.sampled_from([0.0, 0.0, 0.05, 0.25]))
+        d["vac_frac"] = draw(st.sampled_from([0.0, 0.0, 0.05, 0.25, 0.33]))
         d["vac_seed"] = draw(seeds)
         d["subst"] = draw(st.sampled_from([0, 0, 1, 3]))
-        d["rattle"] = draw(st.sampled_from([0.0, 0.02, 0.1]))
+        d["rattle"] = draw(st.sampled_from([0.0, 0.02, 0.1, 0.3]))
         d["rattle_seed"] = draw(seeds)
         if fam == "crystal" and draw(st.integers(0, 2)) == 0:
             d["shear"] = draw(gc.shears(max_steps=2, max_k=1))
@@ -115,6 +121,13 @@ def build(d):
                 s.center(vacuum=5.0, axis=[i for i in range(3) if not pbc[i]])
         elif fam == "crystal":
             s.set_pbc(pbc)
+        elif fam == "twoincell":
+            s2 = _proto(d["proto2"], d["cubic"]).repeat(tuple(d["reps2"]))
+            s2.translate(np.array(d["shift2"], float))
+            cell0 = np.asarray(s.get_cell()).copy()
+            s = s + s2
+            s.set_cell(cell0, scale_atoms=False)
+            s.set_pbc(pbc)
         elif fam == "crystallite":
             s.set_pbc(False)
             s.center(vacuum=d["vacuum"])
@@ -152,7 +165,7 @@ def build(d):
             s.center(vacuum=4.0)
             s.set_pbc(pbc)
         n = len(s)
-        if d.get("vac_frac") and n > 4:
+        if d.get("vac_frac") and n > 2:
             r = np.random.RandomState(d["vac_seed"])
             k = int(d["vac_frac"] * n)
             if k:
